@@ -47,6 +47,7 @@ def setup(rep, tier):
     rep.minimum('R20.3', 1)
     rep.minimum('R20.4', 3)
     rep.minimum('R20.5', 1)
+    rep.minimum('R20.6', 1)
 
 
 def single(v):
@@ -353,6 +354,82 @@ def r20_4(rep, prog):
                                         '%s; pad argument %s' % (detail, padarg), **({} if ok else {'key': 'dtx-multiframe'}))
 
 
+def _disjuncts(e):
+    e = sx.strip(e)
+    if sx.kind(e) == 'bin' and e[1] == '||':
+        return _disjuncts(e[2]) | _disjuncts(e[3])
+    if sx.kind(e) == 'field':
+        return {e[3]}
+    if sx.kind(e) in ('local',):
+        return {e[1]}
+    if sx.kind(e) == 'param':
+        return {e[2]}
+    return {sx.show(e)}
+
+
+def _conjuncts(e):
+    e = sx.strip(e)
+    if sx.kind(e) == 'bin' and e[1] == '&&':
+        return _conjuncts(e[2]) + _conjuncts(e[3])
+    return [e]
+
+
+def r20_6(rep, prog):
+    """exactly one detector is armed: SILK's DTX is enabled iff DTX is on and
+    the condition under which the generalised detector runs is false - the two
+    conditions are complements built from the same terms"""
+    if not prog.has_fn('decide_dtx_mode'):
+        rep.holds('R20.6', '%s:generalised DTX not built, SILK DTX follows use_dtx' % prog.config, None, None)
+        return
+    g = prog.fn('opus_encode_native')
+    f = prog.fn('opus_encode_frame_native')
+    silk = [n for n in g.all_nodes() if n[0] == 'assign' and sx.kind(sx.strip_paren(n[1])) == 'field' and sx.strip_paren(n[1])[3] == 'useDTX']
+    cf = cfgm.CFG(f)
+    calls = T.calls_to(cf, 'decide_dtx_mode')
+    if len(silk) != 1 or not calls:
+        rep.unresolved('R20.6', 'silk_mode.useDTX assignment (%d) / decide_dtx_mode call (%d) not found' % (len(silk), len(calls)))
+        return
+    cj = _conjuncts(silk[0][2])
+    neg = [sx.strip(c[2]) for c in cj if sx.kind(c) == 'un' and c[1] == '!']
+    has_dtx = any(sx.kind(c) == 'field' and c[3] == 'use_dtx' for c in cj)
+    X1 = _disjuncts(neg[0]) if len(neg) == 1 else None
+    # the enabling condition of the generalised detector: conditions controlling the call block
+    b = calls[0][0]
+    X2 = None
+    dtx2 = False
+    # the `a && (b || c)` test is spread over several blocks: collect the terms from the chain of
+    # condition blocks that lead to the call block without statements in between
+    terms = set()
+    seen = set()
+    work = [b]
+    while work:
+        x = work.pop()
+        for p_ in cf.pred[x]:
+            c = cf.cond(p_)
+            if c is None or p_ in seen:
+                continue
+            if cf.blocks[p_]['term'].get('kind') not in ('IfStmt', 'BinaryOperator'):
+                continue
+            seen.add(p_)
+            cs = sx.strip(c)
+            if sx.kind(cs) == 'field' and cs[3] == 'use_dtx':
+                dtx2 = True
+            else:
+                terms |= _disjuncts(cs)
+            if not cf.blocks[p_]['stmts']:
+                work.append(p_)
+    X2 = terms or None
+    where = '%s:%s' % (g.file, sx.line(silk[0]))
+    inst = '%s:SILK DTX is armed exactly when the generalised detector is not (complementary conditions)' % prog.config
+    if X1 is None or X2 is None or not has_dtx or not dtx2:
+        rep.unresolved('R20.6', 'cannot read the two enabling conditions: SILK `%s` (terms %s), generalised terms %s' % (sx.show(silk[0][2]), X1, X2), where)
+    elif X1 == X2:
+        rep.holds('R20.6', inst, where, 'both use_dtx && [!](%s)' % ' || '.join(sorted(X1)))
+    else:
+        rep.violated('R20.6', inst, where, 'SILK DTX: use_dtx && !(%s); generalised DTX: use_dtx && (%s) - for the terms that differ both detectors (or neither) run, and the refresh frames of one are swallowed by the other' %
+                     (' || '.join(sorted(X1)), ' || '.join(sorted(X2))), key='dtx-complement')
+
+
 def r20_5(rep, prog):
     cands = roles.holding(roles.frame_decoders(prog), lambda n: n[0] == 'call' and sx.callee_name(n) in ('silk_Decode', 'celt_decode_with_ec', 'celt_decode_with_ec_dred'))
     if len(cands) != 1:
@@ -401,3 +478,4 @@ def check(rep, prog, tier):
     r20_3(rep, prog, omin, smin)
     r20_4(rep, prog)
     r20_5(rep, prog)
+    r20_6(rep, prog)
